@@ -32,7 +32,7 @@ def main():
     try:
         if a.replay:
             return props.replay(a.pid, a.replay)
-        proof = common.audit(P["theorems"])
+        proof = common.audit(P["theorems"], a.tier)
         failures = []
         for pr in proof["problems"]:
             failures.append(Failure("proof", "proof-obligation: " + pr[:120], None, dict(problem=pr), slice_="proof"))
